@@ -38,6 +38,48 @@ def discipline(rep: Report, cl: ClassLocks) -> None:
                        f"region (or after it) double-disposes or loses an item")
 
 
+def item_identity(rep: Report, c: Fn, item_field: str) -> None:
+    """L6: expressions denoting a held / assigned disposable are never truth-tested."""
+    from ..astutil import atoms
+    for m in c.children:
+        if not m.is_func or m.name == "__init__":
+            continue
+        items = set(m.params[1:])
+        for s in sites(m):
+            n = s.node
+            if isinstance(n, (ast.Assign, ast.AnnAssign)) and n.value is not None and field_of(n.value) == item_field \
+                    and item_field == "current":
+                t = n.targets[0] if isinstance(n, ast.Assign) else n.target
+                if isinstance(t, ast.Name):
+                    items.add(t.id)
+            if isinstance(n, ast.For) and isinstance(n.target, ast.Name):
+                items.add(n.target.id)
+        def is_item(e: ast.AST) -> bool:
+            return (isinstance(e, ast.Name) and e.id in items) or (item_field == "current" and field_of(e) == "current")
+        for s in sites(m):
+            n = s.node
+            tests = []
+            if isinstance(n, (ast.If, ast.While, ast.IfExp, ast.Assert)):
+                tests.append(n.test)
+            elif isinstance(n, ast.BoolOp) and not isinstance(m.module.parents.get(n), (ast.If, ast.While, ast.IfExp, ast.Assert, ast.BoolOp, ast.UnaryOp)):
+                tests.append(n)
+            for t in tests:
+                for e, pol in atoms(t, True):
+                    # disjunctions are not split by atoms(): look inside
+                    for x in ([e] if not isinstance(e, ast.BoolOp) else e.values):
+                        while isinstance(x, ast.UnaryOp) and isinstance(x.op, ast.Not):
+                            x = x.operand
+                        if isinstance(x, (ast.Name, ast.Attribute)):
+                            if is_item(x):
+                                rep.ob("L6-item-identity", m, f"{m.name}: `{short(t, 50)}` tests {u(x)}", False,
+                                       f"`{u(x)}` denotes a disposable and is tested by truthiness: a falsy disposable (an empty "
+                                       f"CompositeDisposable) is treated as absent — dropped without dispose, or a second "
+                                       f"assignment over it is accepted")
+                        elif isinstance(x, ast.Compare) and len(x.ops) == 1 and isinstance(x.ops[0], (ast.Is, ast.IsNot)) \
+                                and is_item(x.left):
+                            rep.ob("L6-item-identity", m, f"{m.name}: `{short(x, 50)}`", True)
+
+
 def old_is_none(p: Path, name: str) -> bool:
     for t, v in p.decisions:
         if (t == f"{name} is not None" and not v) or (t == name and not v) or (t == f"{name} is None" and v):
@@ -154,12 +196,15 @@ def check(repo: Repo, rep: Report) -> None:
     rep.rule("L4-handoff", "ownership hand-off on every path of every mutator", floor=12)
     rep.rule("L4-snapshot", "CompositeDisposable.dispose/clear dispose a snapshot swapped out under the lock", floor=3)
     rep.rule("L5-single-assignment", "SingleAssignmentDisposable rejects a second assignment, deciding under the lock", floor=2)
+    rep.rule("L6-item-identity", "held items are tested with `is (not) None`, never by truthiness (a disposable may be falsy: "
+                                 "an empty CompositeDisposable has __len__ == 0)", floor=6)
     cls = {}
     for name, (rel, fields) in FILES.items():
         c = repo.fn(rel, name)
         cls[name] = c
         cl = ClassLocks(repo, c, ["self.lock"], fields)
         discipline(rep, cl)
+        item_identity(rep, c, "disposable" if name == "CompositeDisposable" else "current")
     for name in ("SerialDisposable", "SingleAssignmentDisposable", "MultipleAssignmentDisposable"):
         c = cls[name]
         setter = c.child("set_disposable")
